@@ -368,6 +368,9 @@ func FuzzParse(f *testing.F) {
 		if len(data) > 1<<14 {
 			return
 		}
+		// the fuzzing engine re-uses one buffer for every input; the harness identifies a buffer (and its
+		// pristine copy) by address and length, so each iteration works on a copy of its own
+		data = append([]byte{}, data...)
 		v := px.AllVersions[int(ver)%len(px.AllVersions)]
 		if c, m := checkOne(data, v, cb); c != "" {
 			harness.SetProperty("C01")
